@@ -75,15 +75,26 @@ def prog_json(f):
                 sense=[int(s) for s in f.sense], b=[int(round(v)) for v in f.const], c=[int(round(v)) for v in f.obj], q=q)
 
 
+_last_status = [None]
+_raised = []
+
+
 def solve_formula(f, solver):
     from rsome.lp import def_sol
-    if solver == 'def':
-        sol = def_sol(f, display=False)
-    else:
-        import importlib
-        sol = importlib.import_module('rsome.%s_solver' % solver).solve(f, display=False)
-    if sol is None or sol.x is None or (isinstance(sol.objval, float) and math.isnan(sol.objval)):
+    try:
+        if solver == 'def':
+            sol = def_sol(f, display=False)
+        else:
+            import importlib
+            sol = importlib.import_module('rsome.%s_solver' % solver).solve(f, display=False)
+    except Exception as e:      # an interface that raises instead of reporting "no solution": C11's business
+        _last_status[0] = 'interface-raised:%s:%s' % (solver, type(e).__name__)
+        _raised.append(_last_status[0])
         return None
+    if sol is None or sol.x is None or (isinstance(sol.objval, float) and math.isnan(sol.objval)):
+        _last_status[0] = str(getattr(sol, 'status', None))
+        return None
+    _last_status[0] = str(sol.status)
     return float(sol.objval)
 
 
@@ -100,14 +111,16 @@ def _replay(job, phase):
     out = dict(tid=job['tid'], P=Pj, D=Dj, xmat=len(getattr(P, 'xmat', [])), qmat=len(getattr(P, 'qmat', [])),
                primal_is_cached=(P2 is P))
     phase[0] = 'solve'
+    del _raised[:]
     solver = job['solver']
     out['solver'] = solver
     out['pval'] = solve_formula(P, solver)
     out['dval'] = solve_formula(D, solver)
+    out['dstatus'] = _last_status[0]
     if out['pval'] is not None and out['dval'] is None and job.get('second'):
         out['dval2'] = solve_formula(D, job['second'])
         out['pval2'] = solve_formula(P, job['second'])
-    # through the model: m.solve then model value
+    out['interface_raised'] = list(_raised)
     return out
 
 
